@@ -360,11 +360,35 @@ type vfC08RunCase struct {
 	KnownFlaky   []string `json:"knownFlaky"`
 	Run          []string `json:"run"`
 	Skip         []string `json:"skip"`
+	// GRPC: the one config case is gRPC over HTTP/2, so that (client mode) every test also exists as a permutation
+	// against the grpc-go reference server, named with the component "(grpc server impl)" before the test name
+	GRPC bool `json:"grpc,omitempty"`
+}
+
+// vfC08Names: the permutation names of the run.
+func vfC08Names(c vfC08RunCase) []string {
+	var names []string
+	for _, n := range c.Tests {
+		names = append(names, "S/TLS:false/"+n)
+		if c.GRPC {
+			names = append(names, "S/TLS:false/(grpc server impl)/"+n)
+		}
+	}
+	return names
 }
 
 // vfC08Suite builds a one-suite library with the given test names; with the
 // single config case used here every permutation is named "S/TLS:false/<test>".
-func vfC08Suite(tests []string) map[string]*conformancev1.TestSuite {
+func vfC08Suite(tests []string, grpc ...bool) map[string]*conformancev1.TestSuite {
+	suites := vfC08SuiteConnect(tests)
+	if len(grpc) > 0 && grpc[0] {
+		suites["s.yaml"].RelevantProtocols = []conformancev1.Protocol{conformancev1.Protocol_PROTOCOL_GRPC}
+		suites["s.yaml"].RelevantHttpVersions = []conformancev1.HTTPVersion{conformancev1.HTTPVersion_HTTP_VERSION_2}
+	}
+	return suites
+}
+
+func vfC08SuiteConnect(tests []string) map[string]*conformancev1.TestSuite {
 	suite := &conformancev1.TestSuite{
 		Name:                 "S",
 		RelevantProtocols:    []conformancev1.Protocol{conformancev1.Protocol_PROTOCOL_CONNECT},
@@ -384,7 +408,16 @@ func vfC08Suite(tests []string) map[string]*conformancev1.TestSuite {
 	return map[string]*conformancev1.TestSuite{"s.yaml": suite}
 }
 
-func vfC08ConfigCases() []configCase {
+func vfC08ConfigCases(grpc ...bool) []configCase {
+	if len(grpc) > 0 && grpc[0] {
+		return []configCase{{
+			Version:     conformancev1.HTTPVersion_HTTP_VERSION_2,
+			Protocol:    conformancev1.Protocol_PROTOCOL_GRPC,
+			Codec:       conformancev1.Codec_CODEC_PROTO,
+			Compression: conformancev1.Compression_COMPRESSION_IDENTITY,
+			StreamType:  conformancev1.StreamType_STREAM_TYPE_UNARY,
+		}}
+	}
 	return []configCase{{
 		Version:     conformancev1.HTTPVersion_HTTP_VERSION_1,
 		Protocol:    conformancev1.Protocol_PROTOCOL_CONNECT,
@@ -416,12 +449,13 @@ func TestVerifC08Run(t *testing.T) {
 				seen[name] = true
 				c.Tests = append(c.Tests, name)
 			}
+			c.GRPC = rapid.IntRange(0, 2).Draw(t, "grpc") == 0
 			genPats := func(label string, max int) []string {
 				k := rapid.IntRange(0, max).Draw(t, label+"-n")
 				var out []string
 				for i := 0; i < k; i++ {
 					// derive from a test name, generalising components
-					src := strings.Split("S/TLS:false/"+rapid.SampledFrom(c.Tests).Draw(t, label+"-src"), "/")
+					src := strings.Split(rapid.SampledFrom(vfC08Names(c)).Draw(t, label+"-src"), "/")
 					var comps []string
 					for _, sc := range src {
 						switch rapid.IntRange(0, 9).Draw(t, label+"-gen") {
@@ -451,17 +485,14 @@ func TestVerifC08Run(t *testing.T) {
 			return c
 		},
 		Check: func(c vfC08RunCase) error {
-			suites := vfC08Suite(c.Tests)
+			suites := vfC08Suite(c.Tests, c.GRPC)
 			flags := &Flags{ClientCommand: []string{"/nonexistent/verif-no-such-client"}, MaxServers: 1, Parallelism: 1}
-			results, err := run(vfC08ConfigCases(), vfTrieOrEmpty(c.KnownFailing), vfTrieOrEmpty(c.KnownFlaky),
+			results, err := run(vfC08ConfigCases(c.GRPC), vfTrieOrEmpty(c.KnownFailing), vfTrieOrEmpty(c.KnownFlaky),
 				parsePatterns(c.Run), parsePatterns(c.Skip), suites, vfNullPrinter{}, vfNullPrinter{}, flags)
 			if err == nil {
 				return verifkit.Violf("run-no-error", "run() with a non-existent client returned no error (results=%v)", results != nil)
 			}
-			names := make([]string, len(c.Tests))
-			for i, n := range c.Tests {
-				names[i] = "S/TLS:false/" + n
-			}
+			names := vfC08Names(c)
 			unmatched := func(pats []string) []string {
 				var out []string
 				for _, p := range pats {
@@ -531,9 +562,9 @@ func TestVerifC08Run(t *testing.T) {
 		},
 		Classify: func(c vfC08RunCase) ([]string, bool) {
 			var cl []string
-			names := make([]string, len(c.Tests))
-			for i, n := range c.Tests {
-				names[i] = "S/TLS:false/" + n
+			names := vfC08Names(c)
+			if c.GRPC {
+				cl = append(cl, "grpc-impl-names")
 			}
 			conflict := false
 			for _, n := range names {
